@@ -101,4 +101,28 @@ theorem C17_build_fault_as_cli {Src Cfg Key Content : Type} [DecidableEq Key]
   unfold runBuildF
   simp [hb, h]
 
+/-- **recovery over histories that mix the two entry points**: after any history of edits, deletions, record losses,
+    command-line runs, build-script runs (forced or not, with any fault, with or without a failing clean-up) and crashes
+    from a state satisfying the invariant, the next successful non-forced command-line run ends with every file of a fresh
+    generation in place: one directory, one record, whoever wrote it -/
+theorem C17_mixed_history_recovery {Src Cfg Key Content : Type} [DecidableEq Key]
+    (S : Sys Src Cfg Key Content) (isGen : Name → Bool)
+    (keySound : ∀ s c s' c', S.key s c = S.key s' c' → S.gen s c = S.gen s' c')
+    (hd : ∀ s c, NamesDistinct (S.gen s c))
+    (w0 : World Src Cfg Key Content) (hI : Inv S w0.out) (h : List (MStep Src Cfg)) :
+    let w := mexec S isGen w0 h
+    S.empty w.src = false → (run S w.src w.cfg false none w.out).1 = .ok →
+    Current (run S w.src w.cfg false none w.out).2.2 (S.gen w.src w.cfg) := by
+  intro w hne hok
+  exact run_ok_current S w.src w.cfg w.out false none (mexec_inv S isGen keySound hd w0 h hI) (hd _ _) hne hok
+
+open TG.C08 in
+/-- … for the modelled tool, from an empty output directory, with no hypothesis about the key -/
+theorem C17_mixed_history_recovery_concrete (isGen : Name → Bool) (src : Pj.Project) (cfg : Gn.Config)
+    (h : List (MStep Pj.Project Gn.Config)) :
+    let w := mexec concreteSys isGen { src := src, cfg := cfg, out := { files := fun _ => none, cache := none } } h
+    concreteSys.empty w.src = false → (run concreteSys w.src w.cfg false none w.out).1 = .ok →
+    Current (run concreteSys w.src w.cfg false none w.out).2.2 (concreteSys.gen w.src w.cfg) :=
+  C17_mixed_history_recovery concreteSys isGen concrete_keySound concrete_namesDistinct _ (inv_empty concreteSys) h
+
 end TG.C17
